@@ -18,6 +18,8 @@ import (
 	_ "verif/checks/c11"
 	_ "verif/checks/c12"
 	_ "verif/checks/c13"
+	_ "verif/checks/c14"
+	_ "verif/checks/c16"
 	_ "verif/checks/c19"
 	_ "verif/checks/c20"
 )
